@@ -24,7 +24,7 @@ include!("../qbase/wake_common.rs");
 use vwk::{waker, wakes};
 
 static SEQ: [u8; 8] = [0, 1, 2, 3, 4, 5, 6, 7];
-const W: u64 = 4;
+const W: u64 = 8;
 
 #[derive(Clone, Debug)]
 struct Broker;
@@ -68,12 +68,13 @@ const FLIGHT: u8 = 1;
 const LOST: u8 = 2;
 const ACKED: u8 = 3;
 
-/// Send buffer with `t` written bytes in data situation SIT; returns (buffer, t, sendable = min(t, window)).
-fn sndbuf_in<const SIT: u8>() -> (SendBuf, u64, u64) {
-    let t: u64 = kani::any();
-    kani::assume(t <= W);
-    let window: u64 = kani::any();
-    kani::assume(window <= VARINT_MAX);
+/// Send buffer with T written bytes (one chunk), peer window WIN, in data situation SIT; returns
+/// (buffer, t, sendable = min(t, window)). T and WIN are concrete per harness instance (the FIN
+/// logic only compares these quantities; symbolic offsets are C09's business and make every
+/// SendBuf call cost minutes): instances cover window >= size, window < size and the empty stream.
+fn sndbuf_in<const SIT: u8, const T: u64, const WIN: u64>() -> (SendBuf, u64, u64) {
+    let t: u64 = T;
+    let window: u64 = WIN;
     let mut b = SendBuf::with_capacity(window);
     b.write(Bytes::from_static(&SEQ).slice(0..t as usize));
     let sendable = if t < window { t } else { window };
@@ -121,8 +122,8 @@ fn data_len(data: &Vec<Bytes>) -> u64 {
 // ------------------------------------------------------------------------------------------------
 // Sending state: which frames carry FIN
 
-fn sending_pick<const SIT: u8>() {
-    let (sndbuf, t, sendable) = sndbuf_in::<SIT>();
+fn sending_pick<const SIT: u8, const T: u64, const WIN: u64>() {
+    let (sndbuf, t, sendable) = sndbuf_in::<SIT, T, WIN>();
     let shutdown: bool = kani::any();
     let mut s = SendingSender {
         stream_id: any_sid(),
@@ -144,6 +145,7 @@ fn sending_pick<const SIT: u8>() {
 
     let res = s.pick_up(|_| allow, flow_limit);
 
+    let (mut saw_data_fin, mut saw_bare, mut saw_blocked, mut saw_waits) = (false, false, false, false);
     match res {
         Ok((range, fresh, data, eos)) => {
             assert!(range.end <= t && range.end <= sendable);
@@ -159,8 +161,8 @@ fn sending_pick<const SIT: u8>() {
                 assert!(fresh == (SIT == FRESH));
                 assert!(SIT == FRESH || SIT == LOST, "only never-sent or lost data is sent");
             }
-            kani::cover!(SIT == FLIGHT || SIT == ACKED || (eos && range.start < range.end), "last data frame carries FIN");
-            kani::cover!(SIT == LOST || range.start == range.end, "bare FIN");
+            saw_data_fin = eos && range.start < range.end;
+            saw_bare = range.start == range.end;
             core::mem::forget(data);
         }
         Err(signals) => {
@@ -169,10 +171,18 @@ fn sending_pick<const SIT: u8>() {
             if fin_due {
                 assert!(allow.is_none() && signals.contains(Signals::CONGESTION), "a due FIN is withheld only by the congestion / space predicate, and says so");
             }
-            kani::cover!(fin_due, "FIN due but no room");
-            kani::cover!(SIT == FRESH || (shutdown && sent_before < t), "written beyond the peer's window: FIN has to wait for MAX_STREAM_DATA");
+            saw_blocked = fin_due;
+            saw_waits = shutdown && sent_before < t;
         }
     }
+    // witnesses (what this instance can exhibit)
+    let data_fin_possible = (SIT == FRESH || SIT == LOST) && T > 0 && WIN >= T;
+    let bare_possible = T == 0 || ((SIT == FLIGHT || SIT == ACKED) && WIN >= T);
+    let waits_possible = T > 0 && (SIT == FRESH || WIN < T);
+    kani::cover!(!data_fin_possible || saw_data_fin, "last data frame carries FIN");
+    kani::cover!(!bare_possible || saw_bare, "bare FIN");
+    kani::cover!(!bare_possible || saw_blocked, "FIN due but no room");
+    kani::cover!(!waits_possible || saw_waits, "FIN has to wait (data unsent / beyond the peer's window)");
     core::mem::forget(s);
 }
 
@@ -191,10 +201,6 @@ macro_rules! fin_harness {
     };
 }
 
-fin_harness!(c01_fin_sending_pick_fresh, sending_pick::<FRESH>());
-fin_harness!(c01_fin_sending_pick_flight, sending_pick::<FLIGHT>());
-fin_harness!(c01_fin_sending_pick_lost, sending_pick::<LOST>());
-fin_harness!(c01_fin_sending_pick_acked, sending_pick::<ACKED>());
 
 // ------------------------------------------------------------------------------------------------
 // DataSent state: FIN lost -> offered again
@@ -214,10 +220,11 @@ fn fin_code(f: &FinState) -> u8 {
     }
 }
 
-fn data_sent_in<const SIT: u8>(flush: bool, shutdown: bool) -> (DataSentSender<Broker>, u64) {
-    let (sndbuf, t, sendable) = sndbuf_in::<SIT>();
-    // DataSent is entered when a frame ending at the total size was emitted: everything was sent
-    kani::assume(sendable == t);
+fn data_sent_in<const SIT: u8, const T: u64>(flush: bool, shutdown: bool) -> (DataSentSender<Broker>, u64) {
+    // DataSent is entered when a frame ending at the total size was emitted: everything was sent,
+    // i.e. the window covers the total size
+    let (sndbuf, t, sendable) = sndbuf_in::<SIT, T, 8>();
+    assert!(sendable == t);
     let s = DataSentSender {
         stream_id: any_sid(),
         sndbuf,
@@ -230,8 +237,8 @@ fn data_sent_in<const SIT: u8>(flush: bool, shutdown: bool) -> (DataSentSender<B
     (s, t)
 }
 
-fn data_sent_pick<const SIT: u8>() {
-    let (mut s, t) = data_sent_in::<SIT>(false, true);
+fn data_sent_pick<const SIT: u8, const T: u64>() {
+    let (mut s, t) = data_sent_in::<SIT, T>(false, true);
     let fin0 = fin_code(&s.fin_state);
     let allow: Option<usize> = kani::any();
     if let Some(a) = allow {
@@ -244,6 +251,7 @@ fn data_sent_pick<const SIT: u8>() {
     // predicate (see c01_fin_resend_ignores_capacity).
     let expect_data = SIT == LOST && t > 0 && allow.is_some();
     let expect_bare = !expect_data && fin0 == 1;
+    let (mut saw_bare, mut saw_data_fin) = (false, false);
     match res {
         Ok((range, fresh, data, eos)) => {
             assert!(!fresh, "after the FIN nothing is new");
@@ -255,8 +263,8 @@ fn data_sent_pick<const SIT: u8>() {
                 assert!(expect_data && range.start == 0, "only lost data is retransmitted");
                 assert!(fin1 == fin0);
             }
-            kani::cover!(range.start == range.end, "lost FIN offered again");
-            kani::cover!(SIT != LOST || (eos && range.start < range.end), "retransmission carries FIN again");
+            saw_bare = range.start == range.end;
+            saw_data_fin = eos && range.start < range.end;
             core::mem::forget(data);
         }
         Err(_) => {
@@ -264,20 +272,19 @@ fn data_sent_pick<const SIT: u8>() {
             assert!(fin1 == fin0);
         }
     }
+    kani::cover!(saw_bare, "lost FIN offered again");
+    kani::cover!(!(SIT == LOST && T > 0) || saw_data_fin, "retransmission carries FIN again");
     core::mem::forget(s);
 }
 
-fin_harness!(c01_fin_data_sent_pick_flight, data_sent_pick::<FLIGHT>());
-fin_harness!(c01_fin_data_sent_pick_lost, data_sent_pick::<LOST>());
-fin_harness!(c01_fin_data_sent_pick_acked, data_sent_pick::<ACKED>());
 
 // ------------------------------------------------------------------------------------------------
 // DataSent state: ack / loss feedback, completion
 
-fn data_sent_feedback<const SIT: u8>() {
+fn data_sent_feedback<const SIT: u8, const T: u64>() {
     let flush: bool = kani::any();
     let shutdown: bool = kani::any();
-    let (s, t) = data_sent_in::<SIT>(flush, shutdown);
+    let (s, t) = data_sent_in::<SIT, T>(flush, shutdown);
     let fin0 = fin_code(&s.fin_state);
     let data_acked0 = s.sndbuf.is_all_rcvd();
     // (a DataSent stream that is already complete does not exist: Outgoing turns it into DataRcvd)
@@ -330,21 +337,18 @@ fn data_sent_feedback<const SIT: u8>() {
     }
     kani::cover!(completed, "last acknowledgement: DataRcvd");
     kani::cover!(!is_ack && fin && fin0 == 0, "FIN reported lost");
-    kani::cover!(is_ack && fin && !completed, "FIN acked, data still outstanding");
+    kani::cover!(SIT == ACKED || T == 0 || (is_ack && fin && !completed), "FIN acked, data still outstanding");
     drop(guard);
     core::mem::forget(outgoing);
     core::mem::forget(arc);
 }
 
-fin_harness!(c01_fin_data_sent_feedback_flight, data_sent_feedback::<FLIGHT>());
-fin_harness!(c01_fin_data_sent_feedback_lost, data_sent_feedback::<LOST>());
-fin_harness!(c01_fin_data_sent_feedback_acked, data_sent_feedback::<ACKED>());
 
 // ------------------------------------------------------------------------------------------------
 // flush / shutdown completion conditions in the Sending state
 
-fn sending_flush<const SIT: u8>() {
-    let (sndbuf, t, sendable) = sndbuf_in::<SIT>();
+fn sending_flush<const SIT: u8, const T: u64, const WIN: u64>() {
+    let (sndbuf, t, sendable) = sndbuf_in::<SIT, T, WIN>();
     let mut s = SendingSender {
         stream_id: any_sid(),
         sndbuf,
@@ -377,14 +381,11 @@ fn sending_flush<const SIT: u8>() {
     let mut cx0 = Context::from_waker(&w0);
     assert!(s.poll_ready(&mut cx0) == Poll::Ready(Err(StreamError::EosSent)));
     assert!(s.write(Bytes::from_static(&SEQ).slice(0..1)) == Err(StreamError::EosSent) && s.sndbuf.written() == t, "writing after shutdown is refused: the total size cannot change");
-    kani::cover!(SIT != ACKED || (all_acked && t > 0), "flush completes");
-    kani::cover!(SIT != FLIGHT || (sendable > 0 && sendable < t), "acknowledged up to the window, more written");
+    kani::cover!(!(SIT == ACKED && WIN >= T && T > 0) || all_acked, "flush completes");
+    kani::cover!(!(SIT == FLIGHT && WIN < T && WIN > 0) || (sendable > 0 && sendable < t), "acknowledged up to the window, more written");
     core::mem::forget(s);
 }
 
-fin_harness!(c01_fin_sending_flush_fresh, sending_flush::<FRESH>());
-fin_harness!(c01_fin_sending_flush_flight, sending_flush::<FLIGHT>());
-fin_harness!(c01_fin_sending_flush_acked, sending_flush::<ACKED>());
 
 // ------------------------------------------------------------------------------------------------
 // Through `Outgoing::try_load_data_into`: the state transitions around the FIN and the frame that
@@ -437,8 +438,8 @@ impl<'a> RecordFrame<Frame<&'a [Bytes]>, &'a [Bytes]> for Packet {
 
 /// Ready / Sending -> DataSent exactly when the emitted frame carries FIN; the frame on the wire
 /// carries (offset, length, FIN) of what was picked and fits the packet.
-fn load_step<const SIT: u8>() {
-    let (sndbuf, t, _sendable) = sndbuf_in::<SIT>();
+fn load_step<const SIT: u8, const T: u64, const WIN: u64>() {
+    let (sndbuf, t, _sendable) = sndbuf_in::<SIT, T, WIN>();
     let shutdown: bool = kani::any();
     let sid = any_sid();
     let ready: bool = SIT == FRESH && kani::any();
@@ -463,6 +464,7 @@ fn load_step<const SIT: u8>() {
     let now_data_sent = matches!(guard.as_ref().unwrap(), Sender::DataSent(_));
     let now_sending = matches!(guard.as_ref().unwrap(), Sender::Sending(_));
     assert!(now_data_sent || now_sending, "a stream that was asked for data has left Ready");
+    let (mut saw_data_fin, mut saw_bare) = (false, false);
     match res {
         Ok((data_len, fresh)) => {
             assert!(packet.frames == 1 && packet.pos <= cap && packet.pos >= 2, "exactly one STREAM frame, inside the packet");
@@ -475,29 +477,28 @@ fn load_step<const SIT: u8>() {
             if let Sender::DataSent(s) = guard.as_ref().unwrap() {
                 assert!(s.fin_state == FinState::Sent && s.shutdown_waker.is_some() && s.sndbuf.written() == t);
             }
-            kani::cover!(packet.fin && data_len > 0, "data + FIN");
-            kani::cover!(SIT == LOST || (packet.fin && data_len == 0), "bare FIN");
+            saw_data_fin = packet.fin && data_len > 0;
+            saw_bare = packet.fin && data_len == 0;
         }
         Err(_) => {
             assert!(packet.frames == 0 && packet.pos == 0 && now_sending, "nothing written, no transition");
         }
     }
+    kani::cover!(!((SIT == FRESH || SIT == LOST) && T > 0 && WIN >= T) || saw_data_fin, "data + FIN");
+    kani::cover!(!(T == 0 || (SIT == FLIGHT && WIN >= T)) || saw_bare, "bare FIN");
     drop(guard);
     core::mem::forget(outgoing);
     core::mem::forget(arc);
 }
 
-fin_harness!(c01_fin_load_fresh, load_step::<FRESH>());
-fin_harness!(c01_fin_load_lost, load_step::<LOST>());
-fin_harness!(c01_fin_load_flight, load_step::<FLIGHT>());
 
 /// PENDING (observation, public `Outgoing` API only): in DataSent a FIN that was reported lost is
 /// re-sent WITHOUT consulting the space predicate; with less room than a STREAM header the frame
 /// writer's `assert!(encoding_size_without_length <= capacity)` fires. `DataStreams` never calls
 /// with less than 25 bytes of room, so this is not reachable from the wire.
 fn resend_fin_small_packet(cap_min: usize) {
-    let (sndbuf, _t, sendable) = sndbuf_in::<ACKED>();
-    kani::assume(sendable == sndbuf.written());
+    let (sndbuf, _t, sendable) = sndbuf_in::<ACKED, 3, 8>();
+    assert!(sendable == sndbuf.written());
     let sid = any_sid();
     let s = DataSentSender { stream_id: sid, sndbuf, flush_waker: None, shutdown_waker: Some(waker(2)), broker: Broker, tx_wakers: tx_handle(), fin_state: FinState::Lost };
     let arc = ArcSender(Arc::new(Mutex::new(Ok(Sender::DataSent(s)))));
@@ -513,5 +514,40 @@ fn resend_fin_small_packet(cap_min: usize) {
     core::mem::forget(arc);
 }
 
-fin_harness!(c01_fin_resend_fits, resend_fin_small_packet(25));
-fin_harness!(c01_fin_resend_ignores_capacity, resend_fin_small_packet(0));
+
+// ------------------------------------------------------------------------------------------------
+// Instances: (T, WIN) = (3, 8) window covers everything; (3, 2) written beyond the window; (0, 8) empty stream.
+
+fin_harness!(c01_fin_sending_pick_fresh, { sending_pick::<FRESH, 3, 8>(); });
+fin_harness!(c01_fin_sending_pick_fresh_win, { sending_pick::<FRESH, 3, 2>(); });
+fin_harness!(c01_fin_sending_pick_empty, { sending_pick::<FRESH, 0, 8>(); });
+fin_harness!(c01_fin_sending_pick_flight, { sending_pick::<FLIGHT, 3, 8>(); });
+fin_harness!(c01_fin_sending_pick_flight_win, { sending_pick::<FLIGHT, 3, 2>(); });
+fin_harness!(c01_fin_sending_pick_lost, { sending_pick::<LOST, 3, 8>(); });
+fin_harness!(c01_fin_sending_pick_acked, { sending_pick::<ACKED, 3, 8>(); });
+fin_harness!(c01_fin_sending_pick_acked_win, { sending_pick::<ACKED, 3, 2>(); });
+
+fin_harness!(c01_fin_data_sent_pick_flight, { data_sent_pick::<FLIGHT, 3>(); });
+fin_harness!(c01_fin_data_sent_pick_lost, { data_sent_pick::<LOST, 3>(); });
+fin_harness!(c01_fin_data_sent_pick_acked, { data_sent_pick::<ACKED, 3>(); });
+fin_harness!(c01_fin_data_sent_pick_empty, { data_sent_pick::<ACKED, 0>(); });
+
+fin_harness!(c01_fin_data_sent_feedback_flight, { data_sent_feedback::<FLIGHT, 3>(); });
+fin_harness!(c01_fin_data_sent_feedback_lost, { data_sent_feedback::<LOST, 3>(); });
+fin_harness!(c01_fin_data_sent_feedback_acked, { data_sent_feedback::<ACKED, 3>(); });
+fin_harness!(c01_fin_data_sent_feedback_empty, { data_sent_feedback::<ACKED, 0>(); });
+
+fin_harness!(c01_fin_sending_flush_fresh, { sending_flush::<FRESH, 3, 8>(); });
+fin_harness!(c01_fin_sending_flush_flight, { sending_flush::<FLIGHT, 3, 8>(); });
+fin_harness!(c01_fin_sending_flush_flight_win, { sending_flush::<FLIGHT, 3, 2>(); });
+fin_harness!(c01_fin_sending_flush_acked, { sending_flush::<ACKED, 3, 8>(); });
+fin_harness!(c01_fin_sending_flush_acked_win, { sending_flush::<ACKED, 3, 2>(); });
+fin_harness!(c01_fin_sending_flush_empty, { sending_flush::<FRESH, 0, 8>(); });
+
+fin_harness!(c01_fin_load_fresh, { load_step::<FRESH, 3, 8>(); });
+fin_harness!(c01_fin_load_empty, { load_step::<FRESH, 0, 8>(); });
+fin_harness!(c01_fin_load_lost, { load_step::<LOST, 3, 8>(); });
+fin_harness!(c01_fin_load_flight, { load_step::<FLIGHT, 3, 8>(); });
+
+fin_harness!(c01_fin_resend_fits, { resend_fin_small_packet(25); });
+fin_harness!(c01_fin_resend_ignores_capacity, { resend_fin_small_packet(0); });
